@@ -11,7 +11,7 @@ EXTENDS HyperLogLog, Hashes, Json, IOUtils
 VARIABLES tid, l, ok, qmemo
 tvars == <<vars, tid, l, ok, qmemo>>
 Traces == JsonDeserialize(IOEnv.TRACE_FILE)
-TSlots == 1..5
+TSlots == 1..(CHOOSE m \in 1..64 : (\A i \in 1..Len(Traces) : Traces[i].NS <= m) /\ (m = 1 \/ \E i \in 1..Len(Traces) : Traces[i].NS = m))   \* as many slots as the largest trace of the batch uses
 Events == Traces[tid].events
 P      == Traces[tid].p
 Seed   == Traces[tid].seed
